@@ -903,3 +903,66 @@ theorem ow_mapCells_inj {v : VW} {n : Nat} (h : v.Inv n) (g : Nat × Nat → Nat
       rw [hpe, hqe, e1, e2]
 
 end Toodee
+
+namespace Toodee
+variable {α : Type}
+
+/-! ### whole drain lifetimes (C12) -/
+
+/-- the complete column drain `remove_col` returns, including what the borrowed array shows meanwhile -/
+theorem ow_removeCol_eq (m : Mode) (t : TD α) (h : t.Inv) (i : Nat) (hi : i < t.numCols) :
+    t.removeCol m i = .ok
+      { iter := ⟨⟨i, t.data.length - t.numCols + 1⟩, t.numCols - 1⟩, col := i, numCols := t.numCols,
+        numRows := t.numRows, buf := t.data, taken := [], tdLen := 0, tdCols := 0, tdRows := 0 } := by
+  have hl := h.len
+  have hw := h.word
+  have hRpos : 0 < t.numRows := by
+    have := h.zero
+    omega
+  have hCR : t.numCols * t.numRows = (t.numRows - 1) * t.numCols + t.numCols := by
+    obtain ⟨r, hr⟩ : ∃ r, t.numRows = r + 1 := ⟨t.numRows - 1, by omega⟩
+    rw [hr, Nat.mul_comm, Nat.succ_mul, Nat.add_sub_cancel]
+  have e1 : usub m t.data.length t.numCols = .ok (t.data.length - t.numCols) := usub_ok m _ _ (by omega)
+  have e2 : uadd m (t.data.length - t.numCols) 1 = .ok (t.data.length - t.numCols + 1) :=
+    uadd_ok m _ _ (by omega)
+  have e3 : usub m t.numCols 1 = .ok (t.numCols - 1) := usub_ok m _ _ (by omega)
+  unfold TD.removeCol
+  rw [if_neg (by simpa using hi)]
+  simp only [pure_eq, ok_bind, e1, e2, e3]
+  rw [if_neg (Decidable.not_not.2 (by omega))]
+
+/-- leaking a column drain whose borrowed array shows `(0,0)` with an empty `Vec` -/
+theorem ow_leak_col_zero (d : DrainCol α) (h0 : d.tdLen = 0) (hr : d.tdRows = 0) (hc : d.tdCols = 0) :
+    d.leak = (⟨[], 0, 0⟩, (d.buf.zipIdx.filter fun xi => !d.taken.contains xi.2).map (·.1)) := by
+  unfold DrainCol.leak
+  rw [h0, hr, hc]
+  simp
+
+/-- the rows-of-cells model of what a leaked row drain leaves behind -/
+theorem ow_leak_row_grid (t : TD α) (h : t.Inv) (i : Nat) (hi : i ≤ t.numRows) :
+    (⟨t.data.take (i * t.numCols), i, if i = 0 then 0 else t.numCols⟩ : TD α).grid = t.grid.take i := by
+  show toRows (if i = 0 then 0 else t.numCols) (t.data.take (i * t.numCols)) = t.grid.take i
+  by_cases h0 : i = 0
+  · subst h0
+    simp [rl_toRows_zero]
+  · rw [if_neg h0]
+    have hC : 0 < t.numCols := by
+      have := h.zero
+      omega
+    have hflat := rl_flatten_take_uniform t.grid i (rl_grid_row_length t)
+    rw [rl_grid_flatten t h] at hflat
+    rw [← hflat]
+    apply rl_toRows_flatten hC
+    intro ρ hρ
+    exact rl_grid_row_length t ρ (List.mem_of_mem_take hρ)
+
+/-- the yielded items and the leaked elements of a column drain that moved out the cells at `Y` -/
+theorem ow_leak_col_run_perm (buf : List α) (Y : List Nat) (hnd : Y.Nodup) (hin : ∀ p ∈ Y, p < buf.length) :
+    (Y.filterMap (buf[·]?) ++ (buf.zipIdx.filter fun xi => !(Y.reverse ++ []).contains xi.2).map (·.1)).Perm buf := by
+  have hcons := ow_leak_col_conserves buf (Y.reverse ++ [])
+    (by rw [List.append_nil]; exact (List.reverse_perm Y).nodup_iff.2 hnd) (by simpa using hin)
+  refine List.perm_append_comm.trans ((List.Perm.append_left _ ?_).trans hcons)
+  rw [List.append_nil, List.filterMap_reverse]
+  exact (List.reverse_perm _).symm
+
+end Toodee
